@@ -120,6 +120,10 @@ pub enum X {
     Bin(BinOp, Box<X>, Box<X>),
     /// `x in y` — only meaningful for text builds; built as contains(y, x)
     In(Box<X>, Box<X>),
+    /// sugar: n nested applications of a unary operator (kept flat so that records stay shallow)
+    Tower(UnOp, u32, Box<X>),
+    /// sugar: left-nested chain ((a op b) op c) op …
+    Chain(BinOp, Vec<X>),
 }
 
 impl X {
@@ -142,8 +146,47 @@ impl X {
         X::If(Box::new(c), Box::new(t), Box::new(e))
     }
 
+    /// Expand `Tower` and `Chain` into plain nodes.
+    pub fn desugar(&self) -> X {
+        match self {
+            X::Tower(op, n, inner) => {
+                let mut x = inner.desugar();
+                for _ in 0..*n {
+                    x = X::un(*op, x);
+                }
+                x
+            }
+            X::Chain(op, items) => {
+                let mut it = items.iter();
+                let mut acc = match it.next() {
+                    Some(f) => f.desugar(),
+                    None => X::Val(XV::N),
+                };
+                for i in it {
+                    acc = X::bin(*op, acc, i.desugar());
+                }
+                acc
+            }
+            X::Val(_) | X::Ref(_) | X::Sym(_) => self.clone(),
+            X::Call(n, a) => X::Call(n.clone(), Box::new(a.desugar())),
+            X::Idx(a, i) => X::Idx(Box::new(a.desugar()), i.clone()),
+            X::If(a, b, c) => X::If(Box::new(a.desugar()), Box::new(b.desugar()), Box::new(c.desugar())),
+            X::Map(m) => X::Map(m.iter().map(|(k, v)| (k.clone(), v.desugar())).collect()),
+            X::Vec(v) => X::Vec(v.iter().map(|x| x.desugar()).collect()),
+            X::Un(op, a) => X::Un(*op, Box::new(a.desugar())),
+            X::Bin(op, a, b) => X::Bin(*op, Box::new(a.desugar()), Box::new(b.desugar())),
+            X::In(a, b) => X::In(Box::new(a.desugar()), Box::new(b.desugar())),
+        }
+    }
+
+    pub fn has_sugar(&self) -> bool {
+        matches!(self, X::Tower(..) | X::Chain(..)) || self.children().into_iter().any(|c| c.has_sugar())
+    }
+
     pub fn node_count(&self) -> usize {
         1 + match self {
+            X::Tower(_, _, a) => a.node_count(),
+            X::Chain(_, v) => v.iter().map(|x| x.node_count()).sum(),
             X::Val(_) | X::Ref(_) | X::Sym(_) => 0,
             X::Call(_, a) | X::Idx(a, _) | X::Un(_, a) => a.node_count(),
             X::If(a, b, c) => a.node_count() + b.node_count() + c.node_count(),
@@ -162,6 +205,8 @@ impl X {
             X::Map(m) => m.iter().map(|(_, x)| x).collect(),
             X::Vec(v) => v.iter().collect(),
             X::Bin(_, a, b) | X::In(a, b) => vec![a, b],
+            X::Tower(_, _, a) => vec![a],
+            X::Chain(_, v) => v.iter().collect(),
         }
     }
 
@@ -173,6 +218,8 @@ impl X {
             X::Map(m) => m.iter_mut().map(|(_, x)| x).collect(),
             X::Vec(v) => v.iter_mut().collect(),
             X::Bin(_, a, b) | X::In(a, b) => vec![a, b],
+            X::Tower(_, _, a) => vec![a],
+            X::Chain(_, v) => v.iter_mut().collect(),
         }
     }
 
@@ -190,6 +237,8 @@ impl X {
             X::Un(op, _) => format!("{op:?}"),
             X::Bin(op, ..) => format!("{op:?}"),
             X::In(..) => "In".into(),
+            X::Tower(op, ..) => format!("Tower{op:?}"),
+            X::Chain(op, ..) => format!("Chain{op:?}"),
         }
     }
 }
@@ -262,6 +311,7 @@ pub fn to_expr(x: &X) -> Expr {
         X::Un(op, a) => un_expr(*op, to_expr(a)),
         X::Bin(op, a, b) => bin_expr(*op, to_expr(a), to_expr(b)),
         X::In(item, coll) => Expr::contains(to_expr(coll), to_expr(item)),
+        X::Tower(..) | X::Chain(..) => to_expr(&x.desugar()),
     }
 }
 
@@ -461,6 +511,7 @@ fn text_into(x: &X, out: &mut String) {
             text_into(coll, out);
             out.push_str("))");
         }
+        X::Tower(..) | X::Chain(..) => text_into(&x.desugar(), out),
     }
 }
 
